@@ -110,3 +110,21 @@ package ipam
 //@   ensures len(blkA(b)) == old(len(blkA(b)))
 //@   ensures forall j int :: 0 <= j && j < len(blkA(b)) && old(blkA(b)[j]) != nil ==> blkA(b)[j] == old(blkA(b)[j])
 //@   loop 1 invariant -1 <= rangeindex && rangeindex < len(blkU(b)) && (forall p int :: 0 <= p && p <= rangeindex ==> blkU(b)[p] != ordinal)
+
+//@ -- garbageCollect is the only place that puts addresses back on the free list: it keeps the block invariant
+//@ -- (an address is pushed only when its slot has just been cleared, and it cannot already be on the list)
+//@ spec macro blkWFq(b *allocationBlock) bool = (forall i int :: 0 <= i && i < len(blkU(b)) ==> 0 <= blkU(b)[i] && blkU(b)[i] < len(blkA(b))) && (forall i int :: 0 <= i && i < len(blkU(b)) ==> blkA(b)[blkU(b)[i]] == nil) && (forall i int, j int :: 0 <= i && i < j && j < len(blkU(b)) ==> blkU(b)[i] != blkU(b)[j])
+//@ func (*allocationBlock).garbageCollect
+//@   property C19
+//@   option safety assume
+//@   option absindex
+//@   option mathint
+//@   option stable (*allocationBlock).AllocationBlock, (*model.AllocationBlock).Allocations, (*model.AllocationBlock).Unallocated, []int, []*int
+//@   requires blkWF(b)
+//@   ensures b.AllocationBlock != nil
+//@   ensures forall i int :: 0 <= i && i < len(blkU(b)) ==> 0 <= blkU(b)[i] && blkU(b)[i] < len(blkA(b))
+//@   ensures forall i int :: 0 <= i && i < len(blkU(b)) ==> blkA(b)[blkU(b)[i]] == nil
+//@   ensures forall i int, j int :: 0 <= i && i < j && j < len(blkU(b)) ==> blkU(b)[i] != blkU(b)[j]
+//@   loop 1 invariant blkWFq(b) && len(blkA(b)) == old(len(blkA(b)))
+//@   loop 2 invariant blkWFq(b) && len(blkA(b)) == old(len(blkA(b)))
+//@   loop 3 invariant blkWFq(b) && len(blkA(b)) == old(len(blkA(b)))
